@@ -48,6 +48,7 @@ func ambiguous(s txgen.TxSpec) bool {
 // buildCase: spec -> library serialisations + txid (compared with the model), and the Go-level
 // statement of the property on this tx (decode(encode) = tx, re-encode = bytes, Clone = tx).
 func buildCase(s txgen.TxSpec) {
+	c.InFlight("build/process-abort", s)
 	tx := txgen.Build(s)
 	std, ext, id := tx.Bytes(), tx.ExtendedBytes(), tx.TxID()
 	c.Tally(fmt.Sprintf("build/in=%d/out=%d", bucket(len(s.Ins)), bucket(len(s.Outs))))
@@ -77,8 +78,10 @@ func buildCase(s txgen.TxSpec) {
 				c.Violate("NewTxFromStream/"+f.name+"-consumption", fmt.Sprintf("used %d of %d err %v", used, len(f.b), err), s)
 			}
 		}
-		cl := tx.Clone()
-		if !bytes.Equal(cl.ExtendedBytes(), ext) || cl.TxID() != id {
+		// Clone round-trips through the codec and ends the process when its own bytes do not parse
+		if _, err := bt.NewTxFromBytes(std); err != nil {
+			c.Violate("Clone/would-abort-the-process", "the standard serialisation does not parse: "+err.Error(), s)
+		} else if cl := tx.Clone(); !bytes.Equal(cl.ExtendedBytes(), ext) || cl.TxID() != id {
 			c.Violate("Clone/fields", "clone differs", s)
 		}
 	}
@@ -168,7 +171,12 @@ func runReqs() {
 }
 
 // reusedTx: long-lived transaction objects every parse request is also read into (one per reader kind)
-var reusedTx = []*bt.Tx{{}, {}, {}}
+var reusedTx = []*bt.Tx{{}, {}, {}, {}}
+
+// plainReader hides every method of the source but Read (a file, a socket, an io.MultiReader: no ReadByte)
+type plainReader struct{ r io.Reader }
+
+func (p plainReader) Read(b []byte) (int, error) { return p.r.Read(b) }
 
 func doParse(b []byte, rp *reply, viol func(site, what string)) {
 	var tx *bt.Tx
@@ -193,7 +201,8 @@ func doParse(b []byte, rp *reply, viol func(site, what string)) {
 	}
 	// the same bytes read into a Tx object that has been used for other transactions before (through readers
 	// that also return short reads): what it holds afterwards is what was read now, nothing of its past
-	for k, rd := range []io.Reader{bytes.NewReader(b), bufio.NewReaderSize(iotest.OneByteReader(bytes.NewReader(b)), 16), iotest.DataErrReader(bytes.NewReader(b))} {
+	src0, src3 := bytes.NewReader(b), bytes.NewReader(b)
+	for k, rd := range []io.Reader{src0, bufio.NewReaderSize(iotest.OneByteReader(bytes.NewReader(b)), 16), iotest.DataErrReader(bytes.NewReader(b)), plainReader{src3}} {
 		var n int64
 		var e error
 		if p, msg := common.Safely(func() { n, e = reusedTx[k].ReadFrom(rd) }); p {
@@ -205,6 +214,14 @@ func doParse(b []byte, rp *reply, viol func(site, what string)) {
 			viol("Tx.ReadFrom/verdict-differs-on-a-used-object-or-reader", fmt.Sprintf("reader kind %d: err %v, NewTxFromStream err %v", k, e, err))
 		} else if ok && (int(n) != used || !bytes.Equal(reusedTx[k].ExtendedBytes(), ext) || !bytes.Equal(reusedTx[k].Bytes(), std)) {
 			viol("Tx.ReadFrom/result-depends-on-what-the-object-held-before-or-on-the-reader", fmt.Sprintf("reader kind %d: read %d bytes (stream parse %d); serialises to %s, expected %s", k, n, used, trunc(common.Hex(reusedTx[k].ExtendedBytes())), trunc(common.Hex(ext))))
+		}
+	}
+	// the source is consumed to exactly the end of the transaction: what follows is still there for the next reader
+	if ok {
+		for k, src := range map[int]*bytes.Reader{0: src0, 3: src3} {
+			if src.Len() != len(b)-used {
+				viol("Tx.ReadFrom/source-not-consumed-to-exactly-the-end-of-the-transaction", fmt.Sprintf("reader kind %d: %d of %d bytes left in the source after a %d-byte transaction, expected %d", k, src.Len(), len(b), used, len(b)-used))
+			}
 		}
 	}
 	_, e3 := bt.NewTxFromBytes(b)
@@ -243,6 +260,27 @@ func doList(b []byte, rp *reply, viol func(site, what string)) {
 	}
 	if n > int64(len(b)) {
 		viol("Txs.ReadFrom/consumed-gt-supplied", fmt.Sprintf("used %d of %d", n, len(b)))
+	}
+	// the same list through a reader that offers nothing but Read
+	var txs2 bt.Txs
+	var n2 int64
+	var err2 error
+	src := bytes.NewReader(b)
+	if p, msg := common.Safely(func() { n2, err2 = txs2.ReadFrom(plainReader{src}) }); p {
+		viol("Txs.ReadFrom/panic", msg)
+	} else if (err2 == nil) != ok || (ok && (n2 != n || len(txs2) != cnt)) {
+		viol("Txs.ReadFrom/result-depends-on-the-kind-of-reader", fmt.Sprintf("plain reader: err %v, %d bytes, %d txs; bytes.Reader: err %v, %d bytes, %d txs", err2, n2, len(txs2), err, n, cnt))
+	} else if ok {
+		var all2 []byte
+		for _, t := range txs2 {
+			all2 = append(all2, t.ExtendedBytes()...)
+		}
+		if !bytes.Equal(all, all2) {
+			viol("Txs.ReadFrom/result-depends-on-the-kind-of-reader", "plain reader: different transactions")
+		}
+		if src.Len() != len(b)-int(n) {
+			viol("Txs.ReadFrom/source-not-consumed-to-exactly-the-end-of-the-list", fmt.Sprintf("%d bytes left, expected %d", src.Len(), len(b)-int(n)))
+		}
 	}
 	rp.OK, rp.Nontrivial = ok, ok && cnt > 0
 	rp.Coq = fmt.Sprintf("CList %s %s %d %d %s", common.CoqBytes(b), common.CoqBool(ok), n, cnt, common.CoqStr(common.Sha256Hex(all)))
